@@ -133,6 +133,10 @@ def Disciplined {σ} (L : Nat → Nat) (prog : List (Thread σ)) : Prop :=
 def SingleLock {σ} (prog : List (Thread σ)) : Prop :=
   ∀ t ∈ prog, ∀ s ∈ t, s.locks.length ≤ 1
 
+/-- nested locks are always acquired in strictly increasing `rank` (a lock hierarchy) -/
+def OrderedLocks {σ} (rank : Nat → Nat) (prog : List (Thread σ)) : Prop :=
+  ∀ t ∈ prog, ∀ s ∈ t, s.locks.Pairwise fun a b => rank a < rank b
+
 /-! ### sync.Once -/
 
 /-- the body of `o.Do(init)` on the variable `(done, value)` -/
